@@ -38,7 +38,22 @@ func namedCalls(fn *ssa.Function, name string) []lifeCall {
 			return
 		}
 		f := calleeOf(ci)
-		if f == nil || f.Name() != name {
+		if f != nil && f.Name() != name {
+			// a helper of the package that makes the call on one of its parameters on every path (but for the nil test
+			// of that parameter) stands for the call: `err = shutdownOptional(ctx, be.RetrySender, err)`
+			if cf := staticCalleeFn(ci); cf != nil && cf.Pkg == rootFn(fn).Pkg {
+				if k := wrapperOfNamedCall(cf, name); k >= 0 && k < len(ci.Common().Args) {
+					_, path := fieldChain(ci.Common().Args[k])
+					last := ""
+					if len(path) > 0 {
+						last = path[len(path)-1]
+					}
+					out = append(out, lifeCall{ci, last})
+				}
+			}
+			return
+		}
+		if f == nil {
 			return
 		}
 		var recv ssa.Value
@@ -264,7 +279,8 @@ func runC03(c *Ctx) {
 				}
 			}
 			if T == q.pq.Origin() {
-				deq := callsTo(fn, funcObj(q.pqA.dequeue))
+				// the dequeue call, or the call of a helper of the package that makes it (`pq.dequeueLocked(ctx)`)
+				deq := callsToThrough(fn, funcObj(q.pqA.dequeue), 3)
 				if len(deq) == 0 {
 					c.Bad("persistent queue Read dequeues", p.Pos(fn.Pos()), "no dequeue call")
 					continue
@@ -411,13 +427,9 @@ func runGoRule(c *Ctx, pkgs []*packages.Package) {
 			}
 			site := "go statement in " + fnName(fn)
 			pos := p.Pos(g.Pos())
-			var body *ssa.Function
-			if mc, ok := g.Call.Value.(*ssa.MakeClosure); ok {
-				body, _ = mc.Fn.(*ssa.Function)
-			} else if f, ok := g.Call.Value.(*ssa.Function); ok {
-				body = f
-			}
-			if body == nil {
+			// the goroutine's body: a function literal, or a function / method (value) started directly
+			body := goBodyFn(g)
+			if body == nil || len(body.Blocks) == 0 {
 				c.Undecided(site, pos, "goroutine body is not a static function")
 				return
 			}
